@@ -958,6 +958,17 @@ void World::exec_op(int i) {
             for (int k = 0; k < fill; k++) list.push_back(synth_mac(5000 + k));
             if (pos >= 0 && nodeok(tgt)) { if (pos > fill) pos = fill; list.insert(list.begin() + pos, nodes[tgt]->attr.mac); }
         }
+        else if (op.a[5] == 3) { // our address is NOT an entry, but its six bytes appear in the list across the boundary of two neighbouring entries
+            int fill = std::max(2, (int)op.a[6]), pos = (int)op.a[7], tgt = op.blob.empty() ? 0 : op.blob[0], sft = op.blob.size() > 1 ? 1 + op.blob[1] % 5 : 3;
+            for (int k = 0; k < fill; k++) list.push_back(synth_mac(5000 + k));
+            if (nodeok(tgt)) {
+                if (pos < 0) pos = 0;
+                if (pos > fill - 2) pos = fill - 2;
+                const Mac &own = nodes[tgt]->attr.mac;
+                for (int b = 0; b < sft; b++) list[pos].a[6 - sft + b] = own.a[b];
+                for (int b = sft; b < 6; b++) list[pos + 1].a[b - sft] = own.a[b];
+            }
+        }
         f.resize(36);
         wire::put16(&f[32], (uint16_t)op.a[3]); wire::put16(&f[34], (uint16_t)list.size());
         for (auto &m : list) f.insert(f.end(), m.a, m.a + 6);
